@@ -367,6 +367,43 @@ def resolve_ifexp(t, conds) -> Term:
     return rebuild(t, f)
 
 
+def _first_open_ifexp(t, cs):
+    """condition of an outermost conditional-expression atom of `t` that the conditions `cs` do not decide"""
+    found = []
+
+    def f(a):
+        if a[0] == 'ifexp' and not found:
+            try:
+                decided = a[1] in cs or mk_not(a[1]) in cs
+            except Exception:
+                decided = True
+            if not decided:
+                found.append(a[1])
+        return None
+    rebuild(t, f)
+    return found[0] if found else None
+
+
+def case_split(t, conds, limit: int = 64):
+    """[(term, conditions)]: the value `t` reached under `conds`, split into the cases of every conditional expression
+    that `conds` leave open (`a if c else b` -> a under c, b under not c); contradictory cases are dropped.  With more
+    than `limit` cases the remaining conditional expressions stay as they are."""
+    out = []
+    work = [(resolve_ifexp(t, conds), list(conds))]
+    while work:
+        tm, cs = work.pop()
+        c = _first_open_ifexp(tm, set(cs)) if len(out) + len(work) < limit else None
+        if c is None:
+            out.append((tm, cs))
+            continue
+        for cc in (c, mk_not(c)):
+            cs2 = cs + [cc]
+            if contradictory(cs2):
+                continue
+            work.append((resolve_ifexp(tm, cs2), cs2))
+    return out
+
+
 _SIGNS = {'lt': {-1}, 'le': {-1, 0}, 'eq': {0}, 'ne': {-1, 1}, 'gt': {1}, 'ge': {0, 1}}
 
 
@@ -641,6 +678,9 @@ def canon_expr(node: ast.AST, env: Env) -> Term:
                 return atom(('alloc', fn[3:-5], sa[2]))
             if sa is not None and sa in env.lens:
                 return atom(('alloc', fn[3:-5], env.lens[sa]))
+            if sa is not None and sa[0] in ('n', 'attr'):
+                # an array of the same shape as a named array: its length is that array's length
+                return atom(('alloc', fn[3:-5], atom(('call', 'len', (a0,)))))
         if fn in env.call_adapters:
             fn, args = env.call_adapters[fn](fn, list(args), env)
         r = mk_call(fn, tuple(args), kws)
